@@ -1,4 +1,5 @@
-(* C39 proofs, part 3: the limit.  (a) For every schedule: as long as no successful allocation
+(* C39 proofs, part 3: the limit without the mutex (what the lock-free allocate before /repo commit
+   0306f36 did and did not guarantee; lk = false).  (a) For every schedule: as long as no successful allocation
    was decided on a stale snapshot (class 0 events only) the total stays within the limit;
    (b) the two ways a snapshot goes stale are real: witnesses (cross-pool race, same-pool ABA);
    (c) a single thread never exceeds the limit. *)
